@@ -133,6 +133,12 @@ class RepeatedRawMetaItemWrapper(
             return default
         raise KeyError(index)
 
+    def popitem(self) -> tuple[str, MetaItem]:
+        # MutableMapping.popitem takes next(iter(self)) for a key, but iteration yields items (sequence side).
+        for item in self:
+            return item.key, self.pop(item.key)
+        raise KeyError('popitem(): mapping is empty')
+
     def keys(self) -> RepeatedRawMetaKeysView:
         return RepeatedRawMetaKeysView(self)
 
@@ -272,6 +278,12 @@ class RepeatedMetaItemWrapper(
         if not isinstance(default, _Empty):
             return default
         raise KeyError(index)
+
+    def popitem(self) -> tuple[str, Optional[MetaValue]]:
+        # MutableMapping.popitem takes next(iter(self)) for a key, but iteration yields items (sequence side).
+        for item in super().__iter__():
+            return item.key, self.pop(item.key)
+        raise KeyError('popitem(): mapping is empty')
 
     def keys(self) -> RepeatedMetaKeysView:
         return RepeatedMetaKeysView(self)
